@@ -58,9 +58,14 @@ fn sub_frame_rich(fam: Fam, typ: u8, filter: &[u8]) -> Vec<u8> {
 }
 
 fn sub_frame_multi(fam: Fam, typ: u8, filters: &[&[u8]]) -> Vec<u8> {
+    sub_frame_multi_opt(fam, typ, filters, 1)
+}
+
+/// `neighbour_opt`: the option byte of every entry whose filter is the plain neighbour "ok/+" (v5 only; v3 entries carry QoS 1)
+fn sub_frame_multi_opt(fam: Fam, typ: u8, filters: &[&[u8]], neighbour_opt: u8) -> Vec<u8> {
     let props = if fam == Fam::V5 { Some(Props::default()) } else { None };
     let body = if typ == model::T_SUBSCRIBE {
-        Body::Subscribe { pid: 1, props, topics: filters.iter().map(|f| (f.to_vec(), 1)).collect() }
+        Body::Subscribe { pid: 1, props, topics: filters.iter().map(|f| (f.to_vec(), if fam == Fam::V5 && *f == b"ok/+" { neighbour_opt } else { 1 })).collect() }
     } else {
         Body::Unsubscribe { pid: 1, props, topics: filters.iter().map(|f| f.to_vec()).collect() }
     };
@@ -173,6 +178,17 @@ pub fn check_filter(s: &str, packets: bool, all_fronts: bool) -> Result<bool, St
                     let a5 = packet_decision::<V5>(&sub_frame_multi(Fam::V5, typ, l), &e5, &what, true)?;
                     if a3 != want || a5 != want {
                         return Err(format!("{}: v3 {} / v5 {} but the specification says {}", what, a3, a5, if want { "valid" } else { "invalid" }));
+                    }
+                }
+                // whether a filter is accepted does not depend on what a neighbouring entry asks for: the neighbour
+                // sets No Local, Retain As Published and Retain Handling 2 (the filter under test may be a shared one)
+                if typ == model::T_SUBSCRIBE {
+                    for l in lists.iter().take(3) {
+                        let what = format!("v5 SUBSCRIBE carrying filter {:?} next to an entry with No Local / Retain As Published / Retain Handling 2", s);
+                        let a5 = packet_decision::<V5>(&sub_frame_multi_opt(Fam::V5, typ, l, 0b0010_1101), &e5, &what, true)?;
+                        if a5 != want {
+                            return Err(format!("{}: {} but the specification says {}", what, if a5 { "accepted" } else { "rejected" }, if want { "valid" } else { "invalid" }));
+                        }
                     }
                 }
                 // the public body-level decoders give the same decision
